@@ -10,6 +10,8 @@ CONSTANTS
  DevNoExpiry = TRUE
  DevLogoutKeeps = FALSE
  DevLimiterPerWindowStart = FALSE
+ DevAnyCookieValid = FALSE
+ PairJars = FALSE
 INIT Init
 NEXT Next
 INVARIANTS C38_SessionRequired C38_RateLimit
